@@ -2,6 +2,7 @@
 //! mux, RPCs) over the simulated TCP seam (hook H2), with adversaries built from raw pieces.
 pub mod admission;
 pub mod cluster;
+pub mod limits;
 pub mod sync;
 
 use std::rc::Rc;
@@ -30,6 +31,7 @@ fn run_case_inner(mode: &str, seed: u64, keep_log: bool) -> (CaseResult, Vec<Str
             "admission" => admission::run(seed, sched, keep_log).await,
             "sync" => sync::run(seed, sched, keep_log).await,
             "cluster" => cluster::run(seed, sched, keep_log).await,
+            "limits" => limits::run(seed, sched, keep_log).await,
             m => panic!("unknown node mode {m}"),
         }
     });
